@@ -347,7 +347,29 @@ fn res_json(r: Result<String, String>) -> Value {
     }
 }
 
+/// declarations of the exportable types a type depends on, transitively (the driver needs the
+/// declarations of library-provided named types such as `JsonValue`)
+struct DeclCollector {
+    seen: BTreeSet<String>,
+    decls: Vec<Value>,
+}
+
+impl ts_rs::TypeVisitor for DeclCollector {
+    fn visit<U: TS + 'static + ?Sized>(&mut self) {
+        let Ok(Some(_)) = guard(|| U::output_path()) else { return };
+        let Ok(name) = guard(|| U::ident()) else { return };
+        if !self.seen.insert(name.clone()) {
+            return;
+        }
+        self.decls.push(json!({"ident": name, "decl": res_json(guard(|| U::decl()))}));
+        let _ = catch_unwind(AssertUnwindSafe(|| U::visit_dependencies(self)));
+    }
+}
+
 fn info<T: TS + 'static + ?Sized>() -> Value {
+    let mut collector = DeclCollector { seen: BTreeSet::new(), decls: vec![] };
+    let _ = catch_unwind(AssertUnwindSafe(|| T::visit_dependencies(&mut collector)));
+    let dependency_decls = collector.decls;
     let deps = guard(|| {
         T::dependencies()
             .into_iter()
@@ -366,6 +388,7 @@ fn info<T: TS + 'static + ?Sized>() -> Value {
         "output_path": guard(|| T::output_path().map(|p| p.to_string_lossy().into_owned())).unwrap_or(None),
         "default_output_path": guard(|| T::default_output_path().map(|p| p.to_string_lossy().into_owned())).unwrap_or(None),
         "dependencies": match deps { Ok(d) => json!(d), Err(p) => json!({"panic": p}) },
+        "dependency_decls": dependency_decls,
         "export_to_string": match guard(|| T::export_to_string()) {
             Ok(Ok(s)) => json!({"ok": s}),
             Ok(Err(e)) => json!({"err": e.to_string()}),
@@ -648,3 +671,7 @@ pub fn serve(reg: Registry) {
         out.flush().ok();
     }
 }
+
+#[cfg(feature = "ext")]
+#[path = "ext.rs"]
+pub mod ext;
